@@ -296,8 +296,10 @@ Definition eng_selparse (inp impl : node) : verdict :=
                | Err _ => List [Str (lit "err")]
                | Panic => List [Str (lit "panic")]
                end in
+      (* accepted texts must print back to themselves and re-parse to the same segments; and a text outside
+         the grammar for which losslessness is proved (sel_parse rejects it) must not be accepted *)
       let spec_ok := match impl with
-                     | List [Str _; _; Str printed; Bool same] => str_eqb printed s && same
+                     | List [Str _; _; Str printed; Bool same] => str_eqb printed s && same && is_ok (sel_parse s)
                      | List [Str k] => str_eqb k (lit "err")
                      | _ => false
                      end in
